@@ -57,11 +57,30 @@ def _callee_name(call: ast.Call):
     return None, None
 
 
+def origin_attr(e, known):
+    """attribute an expression is (a view / alias of): `self.log_w`, `asarray(self.x)`, `w` bound from one of those"""
+    while True:
+        if isinstance(e, ast.Attribute) and e.attr not in ("T", "mT", "real"):
+            return e.attr
+        if isinstance(e, ast.Attribute):
+            e = e.value
+        elif isinstance(e, ast.Subscript):
+            e = e.value
+        elif isinstance(e, ast.Name):
+            return known.get(e.id)
+        elif isinstance(e, ast.Call) and e.args and _callee_name(e)[0] in ALIAS_CALLS:
+            e = e.args[0]
+        else:
+            return None
+
+
 class Ownership:
     def __init__(self, func_node, params):
         self.func = func_node
         self.env = {p: BORROWED for p in params}
         self.sinks = []  # (node, description, status, name)
+        self.origin = {}  # local name -> attribute it was loaded from (self.log_w -> "log_w"), when known
+        self._cur_origin = None
 
     # ------------------------------------------------------------ expressions
     def status(self, e) -> str:
@@ -114,6 +133,7 @@ class Ownership:
     def bind(self, target, st):
         if isinstance(target, ast.Name):
             self.env[target.id] = st
+            self.origin[target.id] = self._cur_origin if st == BATTR else None
         elif isinstance(target, (ast.Tuple, ast.List)):
             for t in target.elts:
                 self.bind(t, st)
@@ -170,6 +190,7 @@ class Ownership:
         if isinstance(s, ast.Assign):
             self.scan_sinks(s.value)
             st = self.status(s.value)
+            self._cur_origin = origin_attr(s.value, self.origin)
             for t in s.targets:
                 self.store_sink(t, s)
                 self.bind(t, st)
@@ -240,8 +261,12 @@ class Ownership:
                     self.scan_sinks(ch)
 
 
-def analyse(finfo):
-    """Sinks of one function: [(node, description, status, name)]."""
+def sink_origin(o: "Ownership", name_expr: str):
+    return o.origin.get(name_expr)
+
+
+def analyse(finfo, with_origin: bool = False):
+    """Sinks of one function: [(node, description, status, name)] (+ origin attribute when asked)."""
     node = finfo.node
     a = node.args
     params = [x.arg for x in a.posonlyargs + a.args + a.kwonlyargs]
@@ -251,4 +276,6 @@ def analyse(finfo):
         params.append(a.kwarg.arg)
     o = Ownership(node, params)
     o.block(node.body)
+    if with_origin:
+        return [(n, d, st, nm, o.origin.get(nm)) for n, d, st, nm in o.sinks]
     return o.sinks
